@@ -128,6 +128,19 @@ fn clone_from_case(a: &str, b: &str) -> R {
     let (live0, _) = alloc::live();
     let mut x = ReprCString::from(a);
     let y = ReprCString::from(b);
+    {
+        // "compares, hashes ... by content": for two different texts too (same first byte, one a prefix of the other, ...)
+        let wa: &str = a.split('\0').next().unwrap();
+        let same = wa == want;
+        ensure!((x == y) == same, "cstring:eq_pair", "ReprCString::from({:?}) == ReprCString::from({:?}) is {}, the texts are {}", a, b, x == y, if same { "equal" } else { "different" });
+        let (bx, by): (&ReprCStr, &ReprCStr) = (x.borrow(), y.borrow());
+        ensure!((bx == by) == same, "cstr:eq_pair", "the borrowed views of {:?} and {:?} compare {}, the texts are {}", a, b, if bx == by { "equal" } else { "different" }, if same { "equal" } else { "different" });
+        let (ca, cb) = (std::ffi::CString::new(wa).unwrap(), std::ffi::CString::new(want).unwrap());
+        let (ra, rb) = (ReprCStr::from(ca.as_c_str()), ReprCStr::from(cb.as_c_str()));
+        ensure!((ra == rb) == same && (ra == *by) == same, "cstr:eq_pair", "ReprCStr of {:?} and of {:?} compare {}, the texts are {}", wa, want, if ra == rb { "equal" } else { "different" }, if same { "equal" } else { "different" });
+        ensure!(!same || (h(&ra) == h(&rb) && h(bx) == h(by) && h(&x) == h(&y)), "cstr:hash_pair", "equal texts {:?} hash differently", wa);
+        ensure!(h(&ra) == h(&wa) && h(bx) == h(&wa), "cstr:hash_pair", "ReprCStr of {:?} does not hash like the text", wa);
+    }
     x.clone_from(&y);
     let (px, py) = (raw_ptr(&x), raw_ptr(&y));
     ensure!(px != py, "cstring:clone_from_alias", "clone_from made the two strings share a buffer");
@@ -286,7 +299,7 @@ fn main() {
         name: "clone_from",
         explore: Box::new(|cx: &Cx| {
             let l = cx.tier.pick(2, 3);
-            cx.rule("clone_from", &format!("a.clone_from(&b) for every ordered pair of strings of <= {} symbols over the same alphabet (shorter, equal and longer sources): a reads as b, owns a well-formed buffer of its own, both buffers are freed with their allocated sizes, nothing leaks", l));
+            cx.rule("clone_from", &format!("for every ordered pair (a, b): ReprCString / borrowed ReprCStr / ReprCStr from a CStr compare equal exactly when the texts are equal and equal texts hash equally; then a.clone_from(&b) for every ordered pair of strings of <= {} symbols over the same alphabet (shorter, equal and longer sources): a reads as b, owns a well-formed buffer of its own, both buffers are freed with their allocated sizes, nothing leaks", l));
             let all = all_strings(l);
             for a in &all {
                 for b in &all {
